@@ -91,6 +91,50 @@ pub proof fn lemma_mult_div(x: int, s: int)
     if x >= 0 && x / s < 0 { lemma_mul_inequality(x / s, -1, s); }
 }
 
+/// sum and difference of multiples are multiples
+pub proof fn lemma_mult_add_sub(a: int, b: int, s: int)
+    requires s > 0, is_mult(a, s), is_mult(b, s)
+    ensures is_mult(a + b, s), is_mult(a - b, s), is_mult(b - a, s),
+{
+    lemma_mult_div(a, s);
+    lemma_mult_div(b, s);
+    let qa = a / s; let qb = b / s;
+    assert((qa + qb) * s == a + b) by { lemma_mul_is_distributive_add_other_way(s, qa, qb); }
+    assert((qa - qb) * s == a - b) by { lemma_mul_is_distributive_sub_other_way(s, qa, qb); }
+    assert((qb - qa) * s == b - a) by { lemma_mul_is_distributive_sub_other_way(s, qb, qa); }
+    lemma_mult_of(qa + qb, s);
+    lemma_mult_of(qa - qb, s);
+    lemma_mult_of(qb - qa, s);
+}
+
+/// distinct multiples are a whole step apart
+pub proof fn lemma_mult_gap(a: int, b: int, s: int)
+    requires s > 0, is_mult(a, s), is_mult(b, s), a < b
+    ensures a + s <= b,
+{
+    lemma_mult_div(a, s);
+    lemma_mult_div(b, s);
+    let qa = a / s; let qb = b / s;
+    if qa >= qb {
+        lemma_mul_inequality(qb, qa, s);
+        assert(false);
+    }
+    lemma_mul_inequality(qa + 1, qb, s);
+    assert((qa + 1) * s == qa * s + s) by { lemma_mul_is_distributive_add_other_way(s, qa, 1); }
+}
+
+/// quotient of a difference of multiples
+pub proof fn lemma_mult_div_sub(a: int, b: int, s: int)
+    requires s > 0, is_mult(a, s), is_mult(b, s), a <= b
+    ensures (b - a) / s == b / s - a / s,
+{
+    lemma_mult_div(a, s);
+    lemma_mult_div(b, s);
+    let qa = a / s; let qb = b / s;
+    assert((qb - qa) * s == b - a) by { lemma_mul_is_distributive_sub_other_way(s, qb, qa); }
+    lemma_div_multiples_vanish(qb - qa, s);
+}
+
 /// sums, differences and multiples of multiples are multiples; distinct multiples are a whole step apart
 pub proof fn lemma_mult_arith(a: int, b: int, s: int)
     requires s > 0, is_mult(a, s), is_mult(b, s)
@@ -101,28 +145,14 @@ pub proof fn lemma_mult_arith(a: int, b: int, s: int)
         (a / s) * s == a,
         a <= b ==> (b - a) / s == b / s - a / s,
 {
-    reveal(is_mult);
+    lemma_mult_add_sub(a, b, s);
     lemma_mult_div(a, s);
-    lemma_mult_div(b, s);
-    let qa = a / s; let qb = b / s;
-    lemma_mul_is_distributive_add_other_way(s, qa, qb);
-    lemma_mul_is_distributive_sub_other_way(s, qa, qb);
-    lemma_mul_is_distributive_sub_other_way(s, qb, qa);
-    lemma_mod_multiples_basic(qa + qb, s);
-    lemma_mod_multiples_basic(qa - qb, s);
-    lemma_mod_multiples_basic(qb - qa, s);
-    lemma_mod_multiples_basic(1, s);
-    lemma_mod_multiples_basic(0, s);
-    assert forall|k: int| #[trigger] is_mult(k * s, s) by { lemma_mod_multiples_basic(k, s); }
-    if a < b {
-        if qa >= qb { lemma_mul_inequality(qb, qa, s); assert(false); }
-        lemma_mul_inequality(qa + 1, qb, s);
-        lemma_mul_is_distributive_add_other_way(s, qa, 1);
-    }
-    if a <= b {
-        assert(b - a == (qb - qa) * s);
-        lemma_div_multiples_vanish(qb - qa, s);
-    }
+    lemma_mult_of(1, s);
+    lemma_mult_of(0, s);
+    assert(1 * s == s && 0 * s == 0);
+    assert forall|k: int| #[trigger] is_mult(k * s, s) by { lemma_mult_of(k, s); }
+    if a < b { lemma_mult_gap(a, b, s); }
+    if a <= b { lemma_mult_div_sub(a, b, s); }
 }
 
 /// abstract contents of a range with inclusive bounds lo..=hi in steps of s (addresses, ascending)
